@@ -40,6 +40,11 @@ TABLE = [
     (C("AQUA", "IMU", mode="fixed"), {}, (0, 0, 1), None, "A", 4000, 1e-3, "batch"),
     (C("AQUA", "MARG", mode="fixed"), {}, (0, 0, 1), (1 / S5, 0, 2 / S5), "A", 5000, 1e-3, "batch"),
     (C("AQUA", "MARG", mode="adaptive"), {}, (0, 0, 1), (1 / S5, 0, 2 / S5), "A", 5000, 1e-3, "batch"),
+    # accelerometer in units of g (unit-norm samples): a filter on its defaults normalises the sample, so the unit does not matter
+    (C("AQUA", "IMU", mode="-"), {"__acc_norm__": 1.0}, (0, 0, 1), None, "A", 4000, 1e-3, "batch"),
+    (C("AQUA", "MARG", mode="-"), {"__acc_norm__": 1.0}, (0, 0, 1), (1 / S5, 0, 2 / S5), "A", 5000, 1e-3, "batch"),
+    (C("Mahony", "IMU"), {"__acc_norm__": 1.0}, (0, 0, 1), None, "B", 8000, 1e-3, "batch"),
+    (C("Madgwick", "IMU", gain="high"), {"gain": 0.5, "__acc_norm__": 1.0}, (0, 0, 1), None, "B", 2400, 2e-2, "batch"),
     (C("ROLEQ", "MARG", frame="NED"), {"magnetic_ref": DIPDEG}, (0, 0, -1), (2 / S5, 0, 1 / S5), "B", 600, 1e-3, "batch"),
     (C("ROLEQ", "MARG", frame="ENU"), {"magnetic_ref": DIPDEG}, (0, 0, 1), (0, 1 / S5, -2 / S5), "B", 600, 1e-3, "batch"),
     (C("Complementary", "MARG"), {}, (0, 0, 1), (1 / S5, 0, 2 / S5), "B", 400, 1e-3, "w0"),
@@ -47,7 +52,7 @@ TABLE = [
     (C("UKF", "IMU"), {}, (0, 0, 1), None, "B", 3000, 2e-2, "batch"),
 ]
 # (3, 3, 1, -1): the sensor on its side (roll exactly 90 degrees: the accelerometer reads exactly 0 on its z axis) and pitched by 36.87 degrees
-TRUTHS = [(3, 1, -2, 1), (3, 3, 1, -1), (1, 1, 0, 0), (2, -1, 1, 3), (1, 0, 0, 2), (1, 2, -3, 1), (0, 1, 1, 1)]
+TRUTHS = [(3, 1, -2, 1), (3, 3, 1, -1), (1, 1, 0, 0), (2, -1, 1, 3), (1, 0, 0, 2), (1, 2, -3, 1), (0, 1, 1, 1), (4, 3, 1, -9)]
 AXES = [(1, 0, 0), (0, 0, 1), (1, -2, 2)]
 # half-angle pairs of the initial error: 0, 30, 90, 150, 175 degrees
 ERRS = {0: (1.0, 0.0), 30: (math.cos(math.radians(15)), math.sin(math.radians(15))), 90: (math.cos(math.pi / 4), math.sin(math.pi / 4)),
@@ -63,7 +68,9 @@ def qmul(p, q):
 def one_run(args):
     ti, u, axis, deg, seed, silent = args
     cfg, extra, gref, href, typ, budget, tol, route = TABLE[ti]
-    cname = name_of(cfg) + ("|" + "|".join("%s=%s" % kv for kv in sorted(extra.items()) if kv[0] in ("gain", "k_P", "frequency")) if extra else "") + ("|field-pointing-up" if (href is not None and href[2] * gref[2] < 0) else "")
+    acc_norm = extra.get("__acc_norm__", 9.81)
+    extra = {k_: v_ for k_, v_ in extra.items() if not k_.startswith("__")}
+    cname = name_of(cfg) + ("|acc-in-g" if acc_norm != 9.81 else "") + ("|" + "|".join("%s=%s" % kv for kv in sorted(extra.items()) if kv[0] in ("gain", "k_P", "frequency")) if extra else "") + ("|field-pointing-up" if (href is not None and href[2] * gref[2] < 0) else "")
     t = Tally()
     t.traces = []
     R = core.g_rot(u)
@@ -73,7 +80,7 @@ def one_run(args):
     if silent is not None:
         gyr[:, silent] = 0.0      # a noise realisation with one exactly silent axis
     Rm = R if typ == "A" else R.T
-    acc = np.tile(Rm @ np.array(gref, dtype=float) * 9.81, (n, 1))
+    acc = np.tile(Rm @ np.array(gref, dtype=float) * acc_norm, (n, 1))
     mag = np.tile(Rm @ np.array(href, dtype=float) * 48.0, (n, 1)) if href is not None else None
     truth = g_unit(u)
     c, s = ERRS[deg]
@@ -172,6 +179,11 @@ def run(chk):
                     for deg in (150, 175):
                         if (ti, u, ax, deg) not in [(j[0], j[1], j[2], j[3]) for j in jobs]:
                             jobs.append((ti, u, ax, deg, chk.seed, None))
+        if quick and TABLE[ti][5] <= 25000:
+            # an attitude with a small scalar part and a large, unevenly spread vector part (a term of a Jacobian that is only right when
+            # the vector part is small or symmetric shows here), from a moderate and a far start
+            for u_, deg, ax in (((4, 3, 1, -9), 30, AXES[0]), ((4, 3, 1, -9), 90, AXES[0]), ((2, -1, 1, 3), 150, AXES[2]), ((2, -1, 1, 3), 175, AXES[1])):
+                jobs.append((ti, u_, ax, deg, chk.seed, None))
         if quick and TABLE[ti][5] <= 25000 and TABLE[ti][3] is not None:
             # a level sensor heading far from North, started far away: the magnetometer rows of a Jacobian matter most there
             for deg in (150, 175):
